@@ -698,10 +698,6 @@ fn read_from_file<R: Read>(reader: &mut R, num_bytes_to_read: usize) -> Rc<Objec
                 for byte in buf_slice.iter().take(bytes_read) {
                     result_bytes.push(Rc::new(Object::Byte(*byte)));
                 }
-                // Got fewer bytes than requested, so we're done
-                if bytes_read < read_len {
-                    break;
-                }
                 total_bytes_read += bytes_read;
             }
             Err(e) => {
